@@ -343,7 +343,7 @@ pub fn run(ctx: &mut Ctx) {
 
     let ng = ctx.share(ctx.tier.pick(96, 2_400));
     ctx.run_leg::<Giants>(ng, false, 12);
-    let nc = ctx.share(ctx.tier.pick(400, 8_000));
+    let nc = ctx.share(ctx.tier.pick(2_400, 40_000));
     ctx.run_leg::<Cold>(nc, false, 40);
     super::coldstart::infra_inconclusive(ctx);
 
